@@ -75,6 +75,9 @@ def run(ctx):
     ctx.stat("mode:" + mode)
     if mode == "step":
         desc = gen_step(H, max_depth=3, multi=multi)
+        if H.draw(6) == 5:
+            # EvaluateStep passes its input on: at the end of a sequence it receives exactly k individuals (as a generator)
+            desc = ["sequence", [desc, ["evaluate"]]]
         n = 2 + H.draw(23)
         k = H.pick([n, n, max(1, n - 1), 1 + H.draw(n), 2 + H.draw(n - 1)])
         form = H.pick(["list", "population", "iterator"])
